@@ -21,7 +21,6 @@ import (
 	"strings"
 
 	"github.com/cossacklabs/acra/keystore"
-	"github.com/cossacklabs/acra/utils"
 	"github.com/cossacklabs/themis/gothemis/keys"
 )
 
@@ -73,7 +72,7 @@ func (store *KeyStore) ExportPublicKey(key ExportedKey) (*keys.PublicKey, error)
 		return nil, nil
 	}
 	// This is getPublicKeyByFilename() but without cache thrashing.
-	return utils.LoadPublicKey(key.PublicPath)
+	return store.loadPublicKey(key.PublicPath)
 }
 
 // ExportPrivateKey loads a private key for export.
@@ -82,7 +81,7 @@ func (store *KeyStore) ExportPrivateKey(key ExportedKey) (*keys.PrivateKey, erro
 		return nil, nil
 	}
 	// This is getPrivateKeyByFilename() but without cache thrashing.
-	privateKey, err := utils.LoadPrivateKey(key.PrivatePath)
+	privateKey, err := store.loadPrivateKey(key.PrivatePath)
 	if err != nil {
 		return nil, err
 	}
@@ -113,7 +112,7 @@ func (store *KeyStore) ExportSymmetricKey(key ExportedKey) ([]byte, error) {
 	if key.SymmetricPath == "" {
 		return nil, nil
 	}
-	encrypted, err := utils.ReadFile(key.SymmetricPath)
+	encrypted, err := store.fs.ReadFile(key.SymmetricPath)
 	if err != nil {
 		return nil, err
 	}
@@ -130,7 +129,7 @@ func (store *KeyStore) ExportPlaintextSymmetricKey(key ExportedKey) ([]byte, err
 	if key.SymmetricPath == "" {
 		return nil, nil
 	}
-	return utils.ReadFile(key.SymmetricPath)
+	return store.fs.ReadFile(key.SymmetricPath)
 }
 
 // DefaultKeyFileClassifier is a KeyFileClassifier for standard key types.
